@@ -39,7 +39,7 @@ FORMATS = ['dict', 'dense', 'csc', 'csr']
 
 def harnesses(tier, seed):
     q = tier == 'quick'
-    progs = ['fmt_mix', 'idx_flat', 'auto_units', 'basic_scaled'] if q else ['fmt_mix', 'idx_flat', 'auto_units', 'basic_scaled', 'units_ref0', 'idx_nonflat', 'promote_chain', 'temp_offset']
+    progs = ['fmt_mix', 'idx_flat', 'auto_units', 'basic_scaled', 'idx_nonflat'] if q else ['fmt_mix', 'idx_flat', 'auto_units', 'basic_scaled', 'units_ref0', 'idx_nonflat', 'promote_chain', 'temp_offset']
     jobs = [dict(fn='h_formats', params=dict(prog=p)) for p in progs]
     jobs.append(dict(fn='h_selftest', params={}))
     return jobs
